@@ -5,14 +5,20 @@ CLAIMED = {
    text="Real Orchestrator/HDDResults/RAMResults/strategies/tasks/datasets run against a scratch directory with spy estimators; for every sampled configuration every crash point k=1..N of the first run (k-th fit/predict raises) is enumerated, each followed by restart+resume+identical rerun, and compared after every run with an executable reference model of the store (file set, record contents vs an independent clone fit, untouched bytes, exact call list, registry read from a fresh load) and with an uninterrupted run. Sampling over configurations and option histories, exhaustive over crash points inside each.",
    note="Trusts: compat layer, spy estimators, sklearn KFold/train_test_split determinism with integer random_state, the sandbox filesystem. Fault model is the property's own (a fit/predict raises); torn/lost writes are out of scope.",
    technique="deterministic simulation: seeded run histories + enumerated crash/restart points against a reference store model"),
+ "C10": dict(level="exploration", ref="DESIGN.md section 7 C10",
+   text="Seeded call histories {fit, update(update_params), predict, update_predict_single, update_predict(cv), pickle} over real forecasters and composites with consecutive/overlapping/changed/empty batches, ensemble member fits under the simulated scheduler; after every step a reference model (dict time->value, cutoff, remembered horizon) is compared: remembered series == union (later wins), cutoff, refit-equivalence against a fresh twin fitted on everything seen (for forecasters that refit), parameter stability and batching invariance with update_params=False, update_predict == manual loop of single updates/predicts on a pickled copy, cutoff restored. Sampling, no enumeration.",
+   note="Trusts compat layer; refit-equivalence only demanded of forecasters whose update refits; direct/recursive/dirrec reductions run with a stub regressor; forecasts made right after update_predict (restored cutoff, later parameters) are not judged.",
+   technique="deterministic simulation: seeded operation histories + reference model/twin, simulated joblib schedule"),
+ "C03": dict(level="exploration", ref="DESIGN.md section 7 C03",
+   text="Same engine as C10 with a lock-step twin whose integer time index is shifted by a constant: after every fit/update the cutoff is checked, every predict is checked for length, exact labels (cutoff+step / requested absolute points), finiteness, independence of the value at step h from the other requested steps (gapped vs contiguous horizon on a pickled copy), and equality of values with the shifted twin, across horizons given at fit or predict and reused over moving cutoffs, including tuned forecasters and composites. Only the history-dependent clauses are simulation material; input-only clauses are exercised as far as the generated histories vary series, origins and horizons.",
+   note="Integer RangeIndex/Index only (PeriodIndex arithmetic is broken under pandas 2; Timestamp.freq is gone); out-of-sample horizons; arima/bats/tbats/prophet not importable.",
+   technique="deterministic simulation: seeded operation histories with lock-step shifted twin"),
 }
 PENDING = {
- "C03": "claimed by DESIGN.md; check not yet built at this commit",
  "C04": "claimed by DESIGN.md; check not yet built at this commit",
  "C07": "claimed by DESIGN.md; check not yet built at this commit",
  "C08": "claimed by DESIGN.md; check not yet built at this commit",
  "C09": "claimed by DESIGN.md; check not yet built at this commit",
- "C10": "claimed by DESIGN.md; check not yet built at this commit",
  "C12": "claimed by DESIGN.md; check not yet built at this commit",
  "C13": "claimed by DESIGN.md; check not yet built at this commit",
  "C20": "claimed by DESIGN.md; check not yet built at this commit",
